@@ -128,6 +128,14 @@ def cases(ctx):
     for _ in range(ctx.scale(2500, 100000)):
         src, expect, crlf = build(rng)
         progs.append(("failing-construct-crlf" if crlf else "failing-construct", src, expect))
+    # line numbers beyond 16 bits: blank and comment lines emit no code, so the program stays small
+    for off in (65530, 65535, 65536, 70000, 131072, 200001):
+        for _ in range(2):
+            src, expect, crlf = build(rng)
+            if crlf:
+                continue
+            pad = "\n" * off if rng.random() < 0.5 else "# pad\n" * off
+            progs.append(("large-line-number", pad + src, expect + off))
     for s in gen_lang.programs(rng, ctx.scale(800, 40000), max_stmts=10, error_rate=0.08):
         progs.append(("generated", s, None))
     srcs = [s for _, s, _ in progs]
